@@ -52,7 +52,27 @@ def op(name, *args):
         ka, kb = _okey(a), _okey(b)
         if kb < ka or (ka == kb and a != b and repr(b) < repr(a)):
             args = (b, a)
+    # integer identities (exact): n - 0, n + 0, n * 1
+    if len(args) == 2 and name in ('iadd', 'isub', 'imul'):
+        a, b = args
+        unit = 1 if name == 'imul' else 0
+        if isinstance(b, tuple) and b[:1] == ('lit',) and len(b) == 3 and b[2] == 'i' and b[1] == unit:
+            return a
+        if name != 'isub' and isinstance(a, tuple) and a[:1] == ('lit',) and len(a) == 3 and a[2] == 'i' and a[1] == unit:
+            return b
     return ('op', name, tuple(args))
+
+
+def _pat_nodes(p):
+    yield p
+    for key in ('sub', 'pat'):
+        if isinstance(p.get(key), dict):
+            yield from _pat_nodes(p[key])
+    for sp in p.get('pats', []) or []:
+        yield from _pat_nodes(sp)
+    for f in p.get('fields', []) or []:
+        if isinstance(f, dict) and isinstance(f.get('pat'), dict):
+            yield from _pat_nodes(f['pat'])
 
 
 def unk(tag):
@@ -954,6 +974,9 @@ class VG:
                     if isinstance(itv, tuple) and itv and itv[0] in ('iter', 'range', 'enumerate', 'take', 'skip', 'rev', 'copied', 'zip', 'iter_mut'):
                         forn = {'k': 'for', 'pat': inner_pat, 'iter': init_['args'][0], 'body': then, 'ty': '()', 'sp': e.get('sp')}
                         return self.v_for(forn, fr)
+            counted = self._counted_while(iff, then, fr) if only_break and iff['cond'].get('k') != 'letexpr' else None
+            if counted is not None:
+                return counted
             if only_break and clean and iff['cond'].get('k') != 'letexpr':
                 once = {'k': 'if', 'cond': iff['cond'], 'then': then, 'ty': '()', 'sp': e.get('sp')}
                 self.value(once, fr)
@@ -961,9 +984,157 @@ class VG:
                     c2 = self.value(iff['cond'], fr)
                     self.event('while-once', (c2,), e)
                 return ('unit',)
+        if e.get('src') == 'Loop':
+            r = self._counted_loop_letelse(e, fr)
+            if r is not None:
+                return r
         self.note_unknown('bare-loop', e)
         for (path) in self._assigned_fields(e['body'], fr):
             self.fields[path] = unk('loop-carried')
+        return ('unit',)
+
+    def _counted_while(self, iff, then, fr):
+        """`while i < N { body; i += 1; }` with i a local changed nowhere else, N not changed by the body, and no
+        break/continue/return inside is `for i in i0..N { body }` followed by `i = max(i0, N)`; None if the shape differs."""
+        c = strip(iff['cond'])
+        if c.get('k') != 'bin' or c.get('op') not in ('Lt', 'Le', 'Gt', 'Ge'):
+            return None
+        l_, r_ = strip(c['l']), strip(c['r'])
+        o_ = c['op']
+        if o_ in ('Gt', 'Ge'):
+            l_, r_, o_ = r_, l_, {'Gt': 'Lt', 'Ge': 'Le'}[o_]
+        if l_.get('k') != 'local' or not is_int_tyname(l_.get('ty', '')):
+            return None
+        return self._counted_core(l_['id'], then, r_, lambda: self.value(r_, fr), o_ == 'Le', fr, iff)
+
+    def _counted_loop_letelse(self, e, fr):
+        """`loop { let Some(p) = S.get(i) else { break V }; body; i += 1; }` is `for i in i0..S.len() { let Some(p) = S.get(i); body }`
+        followed by V (evaluated after the loop, with i = max(i0, len)); None if the shape differs."""
+        body = e.get('body', {})
+        if body.get('k') != 'block' or 'expr' in body or len(body.get('stmts', [])) < 2:
+            return None
+        first = body['stmts'][0]
+        if first.get('k') != 'let' or 'els' not in first or 'init' not in first or pat_is_some(first['pat']) is None:
+            return None
+        if any(n.get('k') not in ('bind', 'wild', 'pref', 'ptuple') for n in _pat_nodes(pat_is_some(first['pat']))):
+            return None         # a refutable inner pattern could leave the loop early
+        els = first['els']
+        brk = None
+        if els.get('k') == 'block' and not els.get('stmts') and 'expr' in els:
+            brk = strip(els['expr'])
+        elif els.get('k') == 'block' and 'expr' not in els and len(els.get('stmts', [])) == 1 and els['stmts'][0].get('k') in ('expr', 'semi'):
+            brk = strip(els['stmts'][0]['e'])
+        if brk is None or brk.get('k') != 'break':
+            return None
+        init = strip(first['init'])
+        if init.get('k') != 'call' or init.get('method') != 'get' or len(init.get('args', [])) != 2:
+            return None
+        seq_n, idx_n = init['args'][0], strip(init['args'][1])
+        if idx_n.get('k') != 'local' or not is_int_tyname(idx_n.get('ty', '')):
+            return None
+        if any(n.get('k') == 'break' for n in walk(brk.get('e', {}))):
+            return None
+
+        def hi_fn():
+            v0 = self.value(init, fr)
+            if isinstance(v0, tuple) and v0 and v0[0] == 'phi' and v0[1][0] == 'op' and v0[1][1] == 'lt' \
+                    and isinstance(v0[1][2][1], tuple) and v0[1][2][1][0] == 'len' and v0[3] == NONE:
+                return v0[1][2][1]
+            return None
+        then = dict(body)
+        plain_let = {k_: v_ for k_, v_ in first.items() if k_ != 'els'}
+        then['stmts'] = [plain_let] + body['stmts'][1:]
+        r = self._counted_core(idx_n['id'], then, seq_n, hi_fn, False, fr, e)
+        if r is None:
+            return None
+        if 'e' in brk:
+            return self.value_noderef(brk['e'], fr)
+        return ('unit',)
+
+    def _counted_core(self, iid, then, inv_node, hi_fn, incl, fr, node):
+        if then.get('k') != 'block' or 'expr' in then or not then.get('stmts'):
+            return None
+        lastst = strip(then['stmts'][-1].get('e', {})) if then['stmts'][-1].get('k') != 'let' else {}
+        if lastst.get('k') != 'assignop' or lastst.get('op') != 'AddAssign':
+            return None
+        tl, tr = strip(lastst['l']), strip(lastst['r'])
+        if tl.get('k') != 'local' or tl['id'] != iid or tr.get('k') != 'lit' or str(tr.get('v')) != '1':
+            return None
+        body = dict(then)
+        body['stmts'] = then['stmts'][:-1]
+        if any(n.get('k') in ('break', 'continue', 'ret', 'try', 'loop') for n in walk(body)):
+            return None
+        # the counter is only read inside the body
+        for n in walk(body):
+            if n.get('k') in ('assign', 'assignop'):
+                t0 = strip(n['l'])
+                if t0.get('k') == 'local' and t0['id'] == iid:
+                    return None
+            if n.get('k') == 'addr' and n.get('mut') and any(x.get('k') == 'local' and x.get('id') == iid for x in walk(n)):
+                return None
+            if n.get('k') == 'call' and 'method' in n and n.get('recv_ty_adj', '').startswith('&mut') and n.get('args'):
+                r0 = strip(n['args'][0])
+                if r0.get('k') == 'local' and r0.get('id') == iid:
+                    return None
+            if n.get('k') == 'closure':
+                return None
+        # the bound is not changed by the body: locals it reads are not written, fields it reads are not written
+        wl, wf = set(), set()
+        for n in walk(body):
+            tgt = None
+            if n.get('k') in ('assign', 'assignop'):
+                tgt = strip(n['l'])
+            elif n.get('k') == 'call' and 'method' in n and n.get('recv_ty_adj', '').startswith('&mut') and n.get('args'):
+                tgt = strip(n['args'][0])
+            elif n.get('k') == 'addr' and n.get('mut'):
+                tgt = strip(n.get('e', {}))
+            while tgt is not None and tgt.get('k') in ('index', 'field', 'un'):
+                if tgt.get('k') == 'field':
+                    pth = self.place_of_static(tgt, fr)
+                    if pth:
+                        wf.add(pth)
+                tgt = strip(tgt.get('base') or tgt.get('e') or {})
+            if tgt is not None and tgt.get('k') == 'local':
+                if tgt['id'] == fr.selfid:
+                    wf.add('*')
+                wl.add(tgt['id'])
+                v_ = fr.locals.get(tgt['id'])
+                if isinstance(v_, tuple) and v_ and v_[0] == 'ref':
+                    wf.add('*')       # a write through a reference held in a local: the target is not tracked here
+        for n in walk(inv_node):
+            if n.get('k') == 'local' and (n['id'] in wl or n['id'] == iid):
+                return None
+            if n.get('k') == 'local' and wf:
+                v_ = fr.locals.get(n['id'])
+                if isinstance(v_, tuple) and v_ and v_[0] == 'ref':
+                    pl = v_[1]
+                    while isinstance(pl, tuple) and pl and pl[0] != 'field' and len(pl) > 1 and isinstance(pl[1], tuple):
+                        pl = pl[1]
+                    pth = pl[1] if isinstance(pl, tuple) and pl and pl[0] == 'field' else None
+                    if '*' in wf or pth is None or any(pth == w or pth.startswith(w + '.') or w.startswith(pth + '.') for w in wf):
+                        return None
+            if n.get('k') == 'field':
+                pth = self.place_of_static(n, fr)
+                if '*' in wf or (pth and any(pth == w or pth.startswith(w + '.') or w.startswith(pth + '.') for w in wf)):
+                    return None
+            if n.get('k') in ('closure', 'assign', 'assignop', 'loop', 'for'):
+                return None
+            if n.get('k') == 'call' and not ('method' in n and n['method'] in ('len', 'min', 'max', 'saturating_sub')):
+                return None
+        i0 = fr.locals.get(iid)
+        if i0 is None:
+            return None
+        hi = hi_fn()
+        if self.dead or hi is None:
+            return None
+        # the increment stays in the body (its overflow obligation is judged under the loop hypotheses); the counter is
+        # re-bound to the position at the start of every iteration, so it is not a carried variable
+        forn = {'k': 'for', 'pat': {'k': 'bind', 'id': iid}, 'iter': inv_node, 'body': then, 'ty': '()', 'sp': node.get('sp')}
+        L_ = 'L%d' % (self.nloops + 1)
+        self.v_for(forn, fr, it=('range', i0, hi, incl))
+        self.loops[L_]['carried'].pop(('local', iid), None)
+        end = _iadd(hi, lit(1, 'i')) if incl else hi
+        fr.locals[iid] = phi(op('lt', i0, end), end, i0)
         return ('unit',)
 
     def _assigned_fields(self, body, fr):
@@ -985,8 +1156,9 @@ class VG:
             return self.place_of_static(e['base'], fr)
         return None
 
-    def v_for(self, e, fr):
-        it = self.value_noderef(e['iter'], fr)
+    def v_for(self, e, fr, it=None):
+        if it is None:
+            it = self.value_noderef(e['iter'], fr)
         if self.dead:
             return unk('dead')
         if isinstance(it, tuple) and it and it[0] == 'ref' and isinstance(it[1], tuple) and it[1][0] in ('field', 'local', 'elem'):
